@@ -15,6 +15,11 @@ def gen_tied(rng, i):
     data = gm.random_inputs(mb, rng, n=1)
     names = [n for sc in pl.scopes_of(mb) for n in sc.split(";") if n]
     cmds = []
+    if rng.random() < 0.35:
+        pair = rng.choice([("drq8", "wo8"), ("wo8", "drq8"), ("drq4c", "wo4"), ("wo4", "drq4c")])
+        for j, n in enumerate(names):
+            cmds.append({"k": "add", "regex": re.escape(n), "operation": "*", "cfg": pl.UNIFORM[pair[j % 2]], "alg": "min_max_uniform_quantize"})
+        names = []
     for n in names:
         if rng.random() < 0.25:
             continue
